@@ -66,8 +66,21 @@ NUM_POOL = [
     "3.141592653589793238462643383279",
     "1609780186000.5",
 ]
-# object keys that may replace "free" keys of an abstract tree (never contain '.', never a FIXED word)
+# object keys that may replace "free" keys of an abstract tree (no '.', see DOTTED_KEY_PAIRS for those; never a FIXED word)
 KEY_POOL = ['f"q', "x[y", "ke}y", "ü", "so\\rt", "a b", "k]", "\U0001f600", "sort ", "Sort", "item", "true"]
+
+
+# member names with dots (composite sources are commonly named after the field: `geo.src`, `source.ip`); pairs that may
+# replace the free keys ("a", "b") of one case: same last component, same first component, one a suffix of the other
+DOTTED_KEY_PAIRS = [
+    ("source.ip", "destination.ip"),
+    ("geo.src", "geo.dest"),
+    ("host.name", "user.name"),
+    ("a.b", "b"),
+    ("x.y.z", "y.z"),
+    ("event.dataset", "dataset"),
+    ("k].ip", "ü.ip"),
+]
 
 
 class Obj:
@@ -107,28 +120,37 @@ class Table:
     def __init__(self, known_words=()):
         self.known = set(FIXED_WORDS) | set(known_words)
         self.keys = {}  # concrete key -> token
+        self.segs = {}  # dot-free segment of a key -> token
         self.strs = {}
         self.nums = {}
         self.nkeys = 0
 
     # -- keys
-    def key(self, k):
-        t = self.keys.get(k)
+    def _seg(self, seg):
+        t = self.segs.get(seg)
         if t is None:
-            if SAFE_KEY.match(k):
-                t = k
+            if SAFE_KEY.match(seg):
+                t = seg
             else:
                 self.nkeys += 1
                 t = "K%d" % self.nkeys
-            self.keys[k] = t
+            self.segs[seg] = t
+        return t
+
+    def key(self, k):
+        """token of an object key. A key may contain dots (`geo.src`): it is tokenised segment by segment so that the token
+        of ijson's dotted prefix (which does not escape dots inside keys) is the concatenation of the key tokens."""
+        t = self.keys.get(k)
+        if t is None:
+            t = self.keys[k] = ".".join(self._seg(seg) for seg in k.split("."))
             self.known.add(k)
         return t
 
     def path(self, dotted):
-        """ijson prefix / relative key (segments joined by '.') -> token path. Keys never contain '.' in generated cases."""
+        """ijson prefix / relative key of a flat-object member (key texts joined by '.') -> token path."""
         if dotted == "":
             return ""
-        return ".".join(self.keys.get(seg, seg) for seg in dotted.split("."))
+        return ".".join(self._seg(seg) for seg in dotted.split("."))
 
     # -- scalars
     def scalar(self, v):
@@ -227,6 +249,8 @@ class Concretiser:
         self.kpool = list(KEY_POOL)
         rnd.shuffle(self.kpool)
         self.bracket_values = set()  # python values / keys whose RAW text contains ']'
+        # the free keys "a" / "b" are the member names of flat objects in the generated cases: dotted names for some cases
+        self.dotted = rnd.choice(DOTTED_KEY_PAIRS) if adversarial and rnd.random() < 0.4 else None
 
     def _mode(self):
         return self.string_mode if self.string_mode is not None else self.rnd.choice([0, 0, 1, 2, 3])
@@ -267,7 +291,9 @@ class Concretiser:
         if k in self.keymap:
             return self.keymap[k]
         c = k
-        if k in self.free_keys and self.adversarial and self.kpool and self.rnd.random() < 0.6:
+        if self.dotted is not None and k in ("a", "b") and k in self.free_keys:
+            c = self.dotted[0 if k == "a" else 1]
+        elif k in self.free_keys and self.adversarial and self.kpool and self.rnd.random() < 0.6:
             c = self.kpool.pop()
         raw = render_string(c, self._mode() if c != k else 0)
         if "]" in raw:
